@@ -232,3 +232,9 @@ Example C08_example_lexicographic :
   in_bounds [2; 3] [0; 2] = true /\ in_bounds [2; 3] [1; 0] = true /\ lex_lt [0; 2] [1; 0]
   /\ ravel [2; 3] [0; 2] = 2 /\ ravel [2; 3] [1; 0] = 3.
 Proof. cbn. repeat split; auto. Qed.
+
+(* "every output position": the positions visited by C08_output_key_bijection_rowmajor are exactly the in-range ones *)
+Theorem C08_visited_positions_exactly_in_range : forall sh idx,
+  In idx (all_indices sh) <-> in_bounds sh idx = true.
+Proof. exact all_indices_iff_in_bounds. Qed.
+Print Assumptions C08_visited_positions_exactly_in_range.
